@@ -312,7 +312,7 @@ def run(tier: str, seed: int) -> Report:
     seen: set[str] = set()
 
     def add(t: dict[str, Any]) -> None:
-        key = json.dumps([t["tk"], t["cfg"], t["ev"]])
+        key = json.dumps([t["tk"], t["cfg"], t["cut_at"], t["kind"], t.get("cut_delay"), t.get("restart"), t["ev"]])
         if key in seen:
             return
         seen.add(key)
